@@ -103,10 +103,11 @@ ADDENDA = {
     "C05": " A third of the cases continue with resubmit-jobs: the rerun must progress in every recovery round and complete without missing jobs.",
     "C06": " Also under failing scheduler commands (squeue outages, sbatch rejected once / for a whole retry series / every 2nd-3rd batch for good), "
            "poll intervals of 1 s - 5 min (how long a squeue answer is trusted), a busy cluster (batches wait in the queue) and many small batches.",
-    "C08": " A third of the direct cases continue with the rewrite resubmit-jobs performs (clear_results_for_resubmission) and a second generation of writers and collectors.",
-    "C09": " 3/7 of the submissions use multi-node batches (run-jobs on every node of the allocation, results recorded by node 0 only).",
+    "C08": " A third of the direct cases continue with the rewrite resubmit-jobs performs (clear_results_for_resubmission) and a second generation of writers and collectors; batch numbers of one to three digits.",
+    "C09": " 3/7 of the submissions use multi-node batches (run-jobs on every node of the allocation, results recorded by node 0 only); what `show-status -j` prints while rounds go on must be one consistent status.",
     "C10": " Process sub-case also issues resubmit-jobs at the instant the completing process has set is_complete and still holds the role: a process refused the role must not change the state.",
     "C14": " In 4/7 of the cases a scancel request fails and that batch goes on: the submission must not be declared complete while a batch is queued or running its jobs.",
+    "C20": " Flow sub-case: a quarter of the runs in local mode; every event handed to the event logger by a process with event logging set up must reach an event file.",
     "C18": " Script sub-check: numeric parameter values incl. 0; the expected #SBATCH map is built from the generated values.",
     "C19": " Half of the batch cases create the configuration from a commands file (auto_config).",
 }
